@@ -114,6 +114,38 @@ func fullNode(id, tag string) *sbom.Node {
 	return n
 }
 
+func documentTypesDoc(reversed bool) *sbom.Document {
+	d := sbom.NewDocument()
+	d.Metadata.Id, d.Metadata.Name, d.Metadata.Version = "urn:uuid:0b8e2a5e-6c1b-4f6e-9a89-666666666666", "types", "1"
+	var nums []int32
+	for n := range sbom.DocumentType_SBOMType_name {
+		nums = append(nums, n)
+	}
+	sort.Slice(nums, func(a, b int) bool { return nums[a] < nums[b] })
+	nums = append(nums, 99)
+	for _, n := range nums {
+		for _, named := range []bool{false, true} {
+			ty := sbom.DocumentType_SBOMType(n)
+			dt := &sbom.DocumentType{Type: &ty}
+			if named {
+				nm, ds := fmt.Sprintf("Type-%d", n), fmt.Sprintf("description %d", n)
+				dt.Name, dt.Description = &nm, &ds
+			}
+			d.Metadata.DocumentTypes = append(d.Metadata.DocumentTypes, dt)
+		}
+	}
+	if reversed {
+		l := d.Metadata.DocumentTypes
+		for i, j := 0, len(l)-1; i < j; i, j = i+1, j-1 {
+			l[i], l[j] = l[j], l[i]
+		}
+	}
+	d.NodeList.Nodes = []*sbom.Node{{Id: "r", Name: "root"}, {Id: "a", Name: "part"}}
+	d.NodeList.Edges = []*sbom.Edge{{From: "r", Type: sbom.Edge_contains, To: []string{"a"}}}
+	d.NodeList.RootElements = []string{"r"}
+	return d
+}
+
 // novelCounter feeds the "novel-values" operand; it only ever grows (single goroutine: documents are built by the
 // harness between executions).
 var novelCounter int
@@ -257,6 +289,11 @@ func Docs() map[string]func() *sbom.Document {
 			d.NodeList.RootElements = []string{"r", ""}
 			return d
 		},
+		// one document type entry per declared type number (enumerated from the schema) and one undeclared number, each
+		// with and without a name of its own, in declaration order and reversed (a serializer that gives up at the first
+		// type it cannot express has then been through the others, or starts with it)
+		"document-types":          func() *sbom.Document { return documentTypesDoc(false) },
+		"document-types-reversed": func() *sbom.Document { return documentTypesDoc(true) },
 		// identifier value shapes: well-formed, SPDX-style extra slash, qualifiers+subpath, upper case, truncated, not a purl
 		"identifier-shapes": func() *sbom.Document {
 			d := sbom.NewDocument()
